@@ -502,7 +502,21 @@ def r5_rounding_modes_of_quot_rem_mod(ctx):
     rm = defs["rem"]
     params, body = L.fn_arities(rm)[0]
     x, y = (p.val for p in params.items[:2])
-    ok = f"(- {x} (* {y} (quot {x} {y})))" in rm.text()
+    def expand(f, depth=0):
+        """the text of a form with the let-bound names in it replaced by what they are bound to"""
+        if isinstance(f, L.Sym) and depth < 6:
+            for a in L.ancestors(f):
+                if L.head(a) in ("let", "let*") and len(a.items) > 1 and isinstance(a.items[1], L.Vec):
+                    binds = a.items[1].items
+                    for nm, init in zip(binds[0::2], binds[1::2]):
+                        if L.is_sym(nm, f.val) and not any(x is f for x in L.walk(init)) and not (nm is f):
+                            return expand(init, depth + 1)
+            return f.text()
+        if isinstance(f, (L.List,)):
+            return "(" + " ".join(expand(i, depth) for i in f.items) + ")"
+        return f.text()
+    want_rem = f"(- {x} (* {y} (quot {x} {y})))"
+    ok = want_rem in rm.text() or any(isinstance(f, L.List) and L.head(f) == "-" and expand(f) == want_rem for b in body for f in L.walk(b))
     ctx.ob("C20.R5", f"{CORE}::rem::x - y * (quot x y)", CORE, rm.line, ok, "" if ok else "rem is not defined as the remainder of quot: x = y * (quot x y) + (rem x y) no longer holds by construction")
 
 
